@@ -212,9 +212,7 @@ def verifyAnswer (cache : Option (String × Except VDecErr VerifierM)) (toks : L
             let spec := match Domain.new? v.vk.n with
               | some d =>
                 let roots := v.piIndexes.map fun i => fpow d.groupGenInv (i % 2 ^ 64)
-                let t := baseTranscript v.label v.vk v.constraints (ver == .v3)
-                let t := pis.foldl (fun t pi => t.appendScalar "pi" pi) t
-                let ch := verifierChallenges t p
+                let ch := verifierChallenges v.label v.vk v.constraints (ver == .v3) pis p
                 match verifyTerms v.vk v.ok.g d roots pis p ch (ver == .v1), verifyRefPoint v.vk v.ok.g d roots pis p ch (ver == .v1) with
                 | some (right, _), some refp => if G1.msum right == refp then " spec=ok" else " spec=MISMATCH"
                 | _, _ => " spec=MISMATCH"
